@@ -15,16 +15,17 @@ TRUSTED_BASE = [
     "Coq 8.16.1 kernel incl. vm_compute (witnesses of the _refuted theorems, Examples, byte-class sweeps); no native_compute",
     "axioms: none (every theorem prints 'Closed under the global context')",
     "hand-written Gallina model coq/MpScopeModel.v of CVariableKey::operator==, CMsgPackReadObjectScope (ReadKey, FindValueByKey, ResetKey, SerializeValue, Open*Scope, OnFinishChildScope, VisitKeys, destructor), CMsgPackReadArrayScope, CMsgPackReadBinaryScope in include/bitserializer/msgpack_archive.h, over the reader model coq/MpModel.v (family mp: C05/C06/C07); specification coq/MpScopeSpec.v (association-list semantics of request histories) over the reference decoder coq/MpSpec.v",
-    "modelled, not verified: C++ operator== on float/double = IEEE equality on bit patterns (ieee_eq32/64); RAII destruction order (child scope destroyed before the parent continues; during unwinding the derived destructor body runs, then ~CMsgPackScopeBase notifies the parent); an exception leaving a destructor = std::terminate (outcome Term); double->float / float->double conversions supplied by the driver; string_view keys of the stream reader alias the reader's buffer (not modelled: the model compares key values)",
+    "modelled, not verified: C++ operator== on float/double = IEEE equality on bit patterns (ieee_eq32/64); RAII destruction order (child scope destroyed before the parent continues; during unwinding the derived destructor body runs, then ~CMsgPackScopeBase notifies the parent); the destructors' try { } catch (...) { } = a failing skip stops the loop and leaves the reader where SkipValue threw (skip_at); no destructor of the scopes lets an exception escape (the model has no terminate outcome; an implementation TERMINATE is a disagreement); double->float / float->double conversions supplied by the driver; string_view keys of the stream reader alias the reader's buffer (not modelled: the model compares key values)",
     "the stream reader (kinds s, S) is tied to the same model by this correspondence run only (no stream-reader scope theorem here; see C10)",
     "extraction: ExtrOcamlBasic only; trusted glue ml/glue.ml ml/glue_mpscope.ml ml/mpscope_driver.ml harness/drv_mpscope.cpp props/C03.py props/mp_common.py (independent Python encoder/decoder + history evaluator used for input generation and for judging)",
 ]
 ASSUMPTIONS = [
     "input bytes are < 256 (C++ char); reader positions are modelled as suffixes of the immutable input, mStartPos as the suffix at the first member",
     "documents of the theorems: every value the reference decoder accepts whose maps (at every depth) have keys of the supported kinds (string, integer, float, double, timestamp 32/64/96), pairwise different under the library's key equality; timestamp 96 is read in the library's field order (known finding F08 of C06/C07)",
+    "the reader's mCloseScopeFailed flag (8d03f7f) is observed directly for kinds m, s (IsCloseScopeFailed() after the root scope is gone) and through MsgPackReadRootScope::Finalize() for kinds M, S, called after an error-free history as LoadObject does; after an exception the flag is not observed (LoadObject does not call Finalize() then)",
     "request keys are passed as std::string, uint64_t, int64_t, float, double or CBinTimestamp; targets are the ReadValue overloads (bool, char, (u)int8..64, nullptr_t, float, double, string_view, CBinTimestamp); container targets of the archive layer (vector, map, tuple, classes) reach the scopes through exactly these calls but are not themselves part of this check (C18/C17 own the archive layer)",
-    "after an exception thrown from inside a value (truncated / ill-formed input, invalid timestamp size) the model does not follow the unwinding: the implementation may answer ERR or TERMINATE there (class of known finding F17)",
-    "stream reader (kinds s, S) on ILL-FORMED documents: only the fact that the load fails (exception or terminate) is compared with the model, because the stream reader's position at the throw differs from the string reader's; on every document the reference decoder accepts the comparison is exact",
+    "after an exception thrown from inside a value by a typed read the reader position is not determined by the model; the unwinding destructors cannot throw (all their reads stand inside try/catch since 0863f96 / 49f9936 / 3580349), so the answer is the exception in every case and TERMINATE never agrees with the model",
+    "stream reader (kinds s, S) on ILL-FORMED documents: only 'no crash / sanitizer report / hang / terminate' is required, because the stream reader's position at a throw (and so where a guarded destructor leaves the reader) differs from the string reader's; on every document the reference decoder accepts the comparison is exact",
 ]
 
 DRIVER = "mpscope"
@@ -33,16 +34,6 @@ INT_TARGETS = ["u1", "u8", "u16", "u32", "u64", "c8", "s8", "s16", "s32", "s64"]
 TARGETS = INT_TARGETS + ["nil", "f32", "f64", "str", "ts"]
 INT_RANGE = {"u1": (0, 2), "u8": (0, 1 << 8), "u16": (0, 1 << 16), "u32": (0, 1 << 32), "u64": (0, 1 << 64),
              "c8": (-128, 128), "s8": (-128, 128), "s16": (-(1 << 15), 1 << 15), "s32": (-(1 << 31), 1 << 31), "s64": (-(1 << 63), 1 << 63)}
-
-# witnesses handed to the coordinator for known_findings.jsonl (used as a fallback while the file has no entry with that id)
-BUILTIN_KNOWN = [
-    {"status": "known", "property": "C03", "id": "F17", "driver": "mpscope", "case": "hist m SS 81 -", "implementation": "TERMINATE",
-     "what": "truncated map (header announces a member that is not there): ~CMsgPackReadObjectScope calls SkipValue, the ParsingException leaves the destructor => std::terminate instead of a catchable exception (T_C03_close_truncated_refuted)"},
-    {"status": "known", "property": "C03", "id": "F14", "driver": "mpscope", "case": "hist m SS 82a161920102a1620507 A:s61,(,g:s32,),G:s62:s32",
-     "implementation": "(,(,T+1,),F,) END 9 T+7",
-     "what": "an array member left partly read (array scope has no tail skip): the parent object scope counts the member as consumed while the reader still stands inside the array, so the following member 'b' is searched from the wrong offset and reported 'not loaded' although it is present (T_C03_mp_refines_refuted); same for a byte array left partly read"},
-]
-
 
 def drivers(vlib):
     impl = vlib.build_cpp("drv_mpscope", ["drv_mpscope.cpp"] + vlib.repo_sources("src/msgpack/*.cpp", "src/common/*.cpp"))
@@ -447,7 +438,8 @@ def expected(line):
                 sent = "ERR:" + s.cat
     except M.Bad:
         sent = None
-    ans = "%s END %s %s" % (",".join(ev.toks) if ev.toks else "-", pos, sent)
+    # a well-formed document: no scope fails to skip its rest, Finalize() has nothing to report
+    ans = "%s END %s %s %s" % (",".join(ev.toks) if ev.toks else "-", pos, sent, "OK" if kind in "MS" else "CF0")
     return (ans if sent is not None else None), ev.partial
 
 
@@ -468,27 +460,27 @@ def illformed(line):
 
 
 def same(a, b, line=None):
-    """implementation answer a against model answer b ('ERR?' = thrown from inside a value: ERR or TERMINATE).
-    Stream reader on an ILL-FORMED document: the model is the string reader's, whose position at the
-    throw differs from the stream reader's (which has consumed what it peeked), so only 'fails' is compared"""
+    """implementation answer a against model answer b: exact.  Exception — stream reader on an ILL-FORMED
+    document: the model is the string reader's; where an exception is thrown (and, since the destructors
+    swallow theirs, where the reader is left) differs between the two readers, so there only 'no crash, no
+    sanitizer report, no hang, no terminate' is required"""
     if a == b:
         return True
-    if " ERR? " in b:
-        return a == "TERMINATE" or a == b.replace(" ERR? ", " ERR ")
-    if line is not None and line.split(" ")[1] in "sS" and is_failure(a) and is_failure(b) and illformed(line):
-        return True
+    if line is not None and line.split(" ")[1] in "sS" and illformed(line):
+        return not a.startswith(("CRASH", "SANITIZER", "HANG", "TERMINATE"))
     return False
 
 
 def judge(line, impl):
-    """HOLD / FAIL / KNOWN:<id> / UNKNOWN for an implementation answer, by the independent evaluation"""
+    """HOLD / FAIL / UNKNOWN for an implementation answer, by the independent evaluation.
+    (F14 and F17 are repaired: a partly-read array / byte-array child is no excuse any more.)"""
     try:
         exp, partial = expected(line)
     except M.Bad:
-        if impl == "TERMINATE":
-            return "KNOWN:F17", "ill-formed / truncated document: exception from a scope destructor"
         if " ERR " in impl:
             return "HOLD", "ill-formed document reported by an exception"
+        if impl == "TERMINATE":
+            return "FAIL", "std::terminate from a scope destructor (repaired by 0863f96 / 49f9936 / 3580349)"
         return "UNKNOWN", "ill-formed document (outside C03), answer: %s" % impl
     except Unjudged as u:
         return "UNKNOWN", str(u)
@@ -498,8 +490,6 @@ def judge(line, impl):
         return "UNKNOWN", "data after the document is ill-formed"
     if impl == exp:
         return "HOLD", "as the association-list evaluation"
-    if partial:
-        return "KNOWN:F14", "an array / byte-array child was left partly read; the evaluation expects: %s" % exp
     return "FAIL", "the association-list evaluation expects: %s" % exp
 
 
@@ -824,35 +814,26 @@ def spec_line(line):
 
 
 def spec_vs_model(line, m, sp):
-    """the theorems' statement, tested on the extracted code: whenever the specification's answer is free
-    of partly-read array children, the model answers with the same tokens, ends right behind the document
-    (error-free histories: T_C03_mp_refines_outside) or with the same error and no terminate (histories
-    ending in an error: NOT PROVED, tested here)"""
+    """the theorems' statement, tested on the extracted code: the model answers with the specification's
+    tokens and ends right behind the document (error-free histories: T_C03_mp_refines), or with the same
+    error and no terminate (histories ending in an error: NOT PROVED, tested here)"""
     t = sp.split(" ")
     if sp in ("NODOC", "BADDOC") or len(t) < 3:
         return None
     mt = m.split(" ")
     if t[1] == "END":
-        if t[2] != "1":
-            return None
         data = bytes.fromhex(line.split(" ")[3])
         _, i = M.dec_value(data)
-        ok = len(mt) >= 3 and mt[0] == t[0] and mt[1] == "END" and mt[2] in (str(i), "?")
+        ok = len(mt) >= 5 and mt[0] == t[0] and mt[1] == "END" and mt[2] in (str(i), "?") and mt[4] in ("CF0", "OK")
         return None if ok else "error-free history"
     if t[1] == "ERR":
-        if t[3] != "1":
-            return None
         ok = len(mt) >= 3 and mt[0] == t[0] and mt[1] == "ERR" and mt[2] == t[2]
-        if not ok and len(mt) >= 3 and mt[1] == "ERR?" and mt[0] == t[0] and mt[2] == t[2]:
-            return None          # thrown from inside a value (invalid timestamp size): unwinding not modelled
         return None if ok else "history ending in an error"
     return None
 
 
 def known_entries(vlib):
     kn = [k for k in vlib.load_known("C03") if k.get("driver", DRIVER) == DRIVER]
-    ids = set(k.get("id") for k in vlib.load_known("C03")) | set(k.get("id") for k in vlib.load_known("C05") if k.get("driver") == DRIVER)
-    kn += [k for k in BUILTIN_KNOWN if k["id"] not in ids]
     return [k for k in kn if k.get("status") == "known"]
 
 
